@@ -428,4 +428,127 @@ theorem sortAllH_spec : ∀ (ss : List Sl) (h : Heap), (arrs ss).Nodup → (∀ 
       have h2 : i ∉ arrs ss := by intro e; apply hn; simp only [arrs, List.map_cons, List.mem_cons]; exact Or.inr e
       rw [b2 i h2, f1 i h1']
 
+/-! ### how many arrays the expansion allocates (C14: the heap-level cost) -/
+
+theorem capOf_set (h : Heap) (a : Nat) (x : Arr) (ha : a < h.length) : capOf (h.set a x) a = x.cap := by
+  unfold capOf; simp [ha]
+
+theorem read_length_le (h : Heap) (s : Sl) : (read h s).length ≤ s.len := by
+  simp [read, List.length_take]; exact Nat.min_le_left _ _
+
+theorem appendG_length_le (grow : Nat → Nat → Nat) (h : Heap) (l : Sl) (rc : List Node) :
+    (appendG grow h l rc).2.length ≤ h.length + 1 := by
+  unfold appendG; split <;> simp [alloc]
+
+/-- when the capacity suffices `append` stays in the array it was given -/
+theorem appendG_inplace (grow : Nat → Nat → Nat) (h : Heap) (l : Sl) (rc : List Node)
+    (ha : l.arr < h.length) (hc : l.len + rc.length ≤ capOf h l.arr) :
+    (appendG grow h l rc).1 = { arr := l.arr, len := l.len + rc.length } ∧
+    (appendG grow h l rc).2.length = h.length ∧
+    capOf (appendG grow h l rc).2 l.arr = capOf h l.arr := by
+  unfold appendG
+  rw [if_pos hc]
+  refine ⟨rfl, by simp, ?_⟩
+  exact capOf_set h l.arr _ ha
+
+/-- `tmp := make([]*node, 0, len(l)+len(r))` is sized right: neither of the two appends into it reallocates, so
+    `appendTerms` allocates exactly one array per alternative it returns -/
+theorem appendInnerH_allocs (grow : Nat → Nat → Nat) (r : Sl) : ∀ (ls : List Sl) (h : Heap),
+    (appendInnerH grow r ls h).2.length = h.length + ls.length := by
+  intro ls
+  induction ls with
+  | nil => intro h; simp [appendInnerH]
+  | cons l ls ih =>
+    intro h
+    obtain ⟨_, z2, z3, _, z5, z6, z7⟩ := alloc_spec h [] (l.len + r.len)
+    simp only [appendInnerH]
+    generalize hp0 : alloc h [] (l.len + r.len) = p0 at z2 z3 z5 z6 z7
+    have hlen0 : p0.1.len = 0 := by simpa using z6
+    have hcap0 : capOf p0.2 p0.1.arr = l.len + r.len := by rw [z3]; exact z7
+    have c1 : p0.1.len + (read p0.2 l).length ≤ capOf p0.2 p0.1.arr := by
+      have := read_length_le p0.2 l; omega
+    obtain ⟨a1, a2, a3⟩ := appendG_inplace grow p0.2 p0.1 (read p0.2 l) z5.1 c1
+    generalize hp1 : appendG grow p0.2 p0.1 (read p0.2 l) = p1 at a1 a2 a3
+    have harr1 : p1.1.arr = p0.1.arr := by rw [a1]
+    have hlen1 : p1.1.len = p0.1.len + (read p0.2 l).length := by rw [a1]
+    have c2 : p1.1.len + (read p1.2 r).length ≤ capOf p1.2 p1.1.arr := by
+      have h1 := read_length_le p0.2 l
+      have h2 := read_length_le p1.2 r
+      rw [harr1, a3, hcap0, hlen1, hlen0]; omega
+    obtain ⟨b1, b2, b3⟩ := appendG_inplace grow p1.2 p1.1 (read p1.2 r) (by rw [harr1, a2]; exact z5.1) c2
+    generalize hp2 : appendG grow p1.2 p1.1 (read p1.2 r) = p2 at b1 b2 b3
+    rw [ih p2.2, b2, a2, z2]; simp only [List.length_cons]; omega
+
+theorem appendTermsH_allocs (grow : Nat → Nat → Nat) (ls : List Sl) : ∀ (rs : List Sl) (h : Heap),
+    (appendTermsH grow ls rs h).2.length = h.length + ls.length * rs.length := by
+  intro rs
+  induction rs with
+  | nil => intro h; simp [appendTermsH]
+  | cons r rs ih =>
+    intro h
+    simp only [appendTermsH]
+    rw [ih, appendInnerH_allocs, List.length_cons, Nat.mul_succ]; omega
+
+theorem mergeInnerH_allocs (grow : Nat → Nat → Nat) (r : Sl) : ∀ (ls : List Sl) (h : Heap),
+    (mergeInnerH grow r ls h).2.length ≤ h.length + ls.length ∧ (mergeInnerH grow r ls h).1.length = ls.length := by
+  intro ls
+  induction ls with
+  | nil => intro h; simp [mergeInnerH]
+  | cons l ls ih =>
+    intro h
+    simp only [mergeInnerH]
+    have a := appendG_length_le grow h l (read h r)
+    obtain ⟨b, c⟩ := ih (appendG grow h l (read h r)).2
+    refine ⟨?_, by simp [c]⟩
+    simp only [List.length_cons]; omega
+
+theorem mergeTermsH_allocs (grow : Nat → Nat → Nat) : ∀ (rs ls : List Sl) (h : Heap),
+    (mergeTermsH grow ls rs h).2.length ≤ h.length + ls.length * rs.length := by
+  intro rs
+  induction rs with
+  | nil => intro ls h; simp [mergeTermsH]
+  | cons r rs ih =>
+    intro ls h
+    simp only [mergeTermsH]
+    obtain ⟨a, b⟩ := mergeInnerH_allocs grow r ls h
+    have := ih (mergeInnerH grow r ls h).1 (mergeInnerH grow r ls h).2
+    rw [b] at this
+    rw [List.length_cons, Nat.mul_succ]; omega
+
+/-- the number of arrays one run of the expansion may allocate: one per term, and one per alternative of every AND -/
+def allocBound : Node → Nat
+  | .lic .. => 1
+  | .ref .. => 1
+  | .and l r => allocBound l + allocBound r + (expandTerm l).length * (expandTerm r).length
+  | .or l r => allocBound l + allocBound r
+
+theorem expandTermH_allocs (grow : Nat → Nat → Nat) : ∀ (n : Node) (h : Heap),
+    (expandTermH grow n h).2.length ≤ h.length + allocBound n := by
+  intro n
+  induction n with
+  | lic id p e => intro h; simp [expandTermH, alloc, allocBound]
+  | ref d i => intro h; simp [expandTermH, alloc, allocBound]
+  | and l r ihl ihr =>
+    intro h
+    have a := ihl h
+    have eL := (expandTermH_spec grow l h).1
+    simp only [expandTermH, allocBound]
+    generalize hL : expandTermH grow l h = L at a eL
+    have b := ihr L.2
+    have eR := (expandTermH_spec grow r L.2).1
+    generalize hR : expandTermH grow r L.2 = R at b eR
+    have lenL : L.1.length = (expandTerm l).length := by rw [← eL, List.length_map]
+    have lenR : R.1.length = (expandTerm r).length := by rw [← eR, List.length_map]
+    split
+    · rw [appendTermsH_allocs, lenL, lenR]; omega
+    · have := mergeTermsH_allocs grow R.1 L.1 R.2
+      rw [lenL, lenR] at this; omega
+  | or l r ihl ihr =>
+    intro h
+    have a := ihl h
+    simp only [expandTermH, allocBound]
+    generalize hL : expandTermH grow l h = L at a
+    have b := ihr L.2
+    omega
+
 end Spdx.H
